@@ -65,6 +65,11 @@ def cells(tier, seed):
             out.append({'kind': 'masks', 'biort': b, 'qshift': q, 'J': 4, 'shape': list(rnd.choice(SHAPES)),
                         'skip': [rnd.random() < 0.5 for _ in range(4)],
                         'include': [rnd.random() < 0.5 for _ in range(4)]})
+    # the padding-mode option: the selection rules hold in every mode (the level-1 filters pad with zeros
+    # in any mode but 'symmetric'); forward-only cells, since perfect reconstruction is a symmetric-mode fact
+    for c in out:
+        if c['kind'] == 'masks' and rnd.random() < 0.3:
+            c['mode'] = 'zero'
     rnd.shuffle(out)
     return out
 
@@ -73,6 +78,8 @@ def fwd(cell, J=None, **kw):
     import torch
     import pytorch_wavelets as pw
     with util.default_dtype(torch.float64):
+        if cell.get('mode'):
+            kw.setdefault('mode', cell['mode'])
         return pw.DTCWTForward(biort=cell['biort'], qshift=cell['qshift'], J=J or cell['J'], **kw)
 
 
